@@ -586,6 +586,7 @@ static void op_search(Run &r, Box &b, Tape &t)
     }
 }
 
+template <class T> static void check_foreach(Run &r, Box &b);
 static void op_query(Run &r, Box &b, Tape &t)
 {
     size_t num = b.m.size(), mem = b.mem();
@@ -639,6 +640,59 @@ static void op_query(Run &r, Box &b, Tape &t)
     else { VP_CHECK(r.cx, top == nullptr, "seq:top_empty", "top of empty container is not null"); }
     void *end = b.is_buf ? a_buf_end(b.b) : a_vec_end(b.v);
     if (end) { VP_CHECK(r.cx, end == base + b.siz * num, "seq:end", "end pointer is not one past the last element"); }
+    switch (b.siz)
+    {
+    case 1: check_foreach<uint8_t>(r, b); break;
+    case 2: check_foreach<uint16_t>(r, b); break;
+    case 4: check_foreach<uint32_t>(r, b); break;
+    case 8: check_foreach<uint64_t>(r, b); break;
+    default: break;
+    }
+}
+
+// the iteration macros visit exactly the elements, in order / in reverse (element types of matching size only)
+template <class T>
+static void check_foreach(Run &r, Box &b)
+{
+    size_t num = b.m.size(), i = 0;
+    uint8_t *base = b.base();
+    if (b.is_buf)
+    {
+        a_buf_foreach(T, *, it, b.b)
+        {
+            VP_CHECK(r.cx, i < num && (uint8_t *)it == base + i * sizeof(T), "seq:foreach", "a_buf_foreach visits a wrong address at step %zu of %zu", i, num);
+            ++i;
+        }
+        VP_CHECK(r.cx, i == num, "seq:foreach", "a_buf_foreach visits %zu of %zu elements", i, num);
+        a_buf_foreach_reverse(T, *, it, b.b)
+        {
+            VP_CHECK(r.cx, i > 0 && (uint8_t *)it == base + (i - 1) * sizeof(T), "seq:foreach_reverse", "a_buf_foreach_reverse visits a wrong address");
+            --i;
+        }
+        VP_CHECK(r.cx, i == 0, "seq:foreach_reverse", "a_buf_foreach_reverse stops %zu elements early", i);
+        a_buf_forenum(k, b.b) { VP_CHECK(r.cx, k == i, "seq:forenum", "a_buf_forenum index %zu at step %zu", (size_t)k, i); ++i; }
+        VP_CHECK(r.cx, i == num, "seq:forenum", "a_buf_forenum counts %zu of %zu", i, num);
+        a_buf_forenum_reverse(k, b.b) { --i; VP_CHECK(r.cx, k == i, "seq:forenum_reverse", "a_buf_forenum_reverse index %zu at step %zu", (size_t)k, i); }
+    }
+    else
+    {
+        a_vec_foreach(T, *, it, b.v)
+        {
+            VP_CHECK(r.cx, i < num && (uint8_t *)it == base + i * sizeof(T), "seq:foreach", "a_vec_foreach visits a wrong address at step %zu of %zu", i, num);
+            ++i;
+        }
+        VP_CHECK(r.cx, i == num, "seq:foreach", "a_vec_foreach visits %zu of %zu elements", i, num);
+        a_vec_foreach_reverse(T, *, it, b.v)
+        {
+            VP_CHECK(r.cx, i > 0 && (uint8_t *)it == base + (i - 1) * sizeof(T), "seq:foreach_reverse", "a_vec_foreach_reverse visits a wrong address");
+            --i;
+        }
+        VP_CHECK(r.cx, i == 0, "seq:foreach_reverse", "a_vec_foreach_reverse stops %zu elements early", i);
+        a_vec_forenum(k, b.v) { VP_CHECK(r.cx, k == i, "seq:forenum", "a_vec_forenum index %zu at step %zu", (size_t)k, i); ++i; }
+        VP_CHECK(r.cx, i == num, "seq:forenum", "a_vec_forenum counts %zu of %zu", i, num);
+        a_vec_forenum_reverse(k, b.v) { --i; VP_CHECK(r.cx, k == i, "seq:forenum_reverse", "a_vec_forenum_reverse index %zu at step %zu", (size_t)k, i); }
+    }
+    VP_CHECK(r.cx, i == 0, "seq:forenum_reverse", "reverse enumeration stops %zu early", i);
 }
 
 static void make_box(Run &r, Box &b, Tape &t, bool is_buf)
